@@ -402,6 +402,8 @@ def check_negative_operand(ctx, tree, cls):
     methods = {'SqlalchemyRender': {m.name: m for m in cls.body if isinstance(m, ast.FunctionDef)}}
 
     class Elem:
+        _interp_safe = True
+
         def __init__(self, text, grouped=False):
             self.text, self.grouped = text, grouped
 
